@@ -33,6 +33,10 @@ CHECKS = [
      'technique': 'deterministic simulation: seeded parse-call histories on pooled parser instances with asynchronous crash points, I/O / locale / recursion-limit fault injection over stub fs/net/locale seams, step-budget hang and lock deadlock verdicts',
      'text': 'Histories of parse / parse+evaluate calls on one parser instance with failures at arbitrary points (syntax errors from mutated, random and deep sources; an injected asynchronous exception at the k-th line event). After every operation the used instance, a fresh instance and a pristine-process reference must agree on a probe set. Every exception leaving the API that is not an ElementPathError is a violation, as is a step-budget overrun (HANG) or a blocked lock (DEADLOCK). Fault arms: per-resource faults of a virtual filesystem/network under fn:json-doc / fn:unparsed-text*, injected setlocale failures under collation functions, reduced recursion limits.',
      'note': 'The for-every-input-string clause is input fuzzing riding on the histories. Step budgets count line events inside elementpath only. Injected crashes are deferred out of finally bodies/__exit__.'},
+    {'id': 'C13', 'level': 'exploration', 'design_ref': 'DESIGN.md section 2, C13',
+     'technique': 'deterministic simulation: seeded mutation histories on aliasing UnicodeSubset/CharacterClass objects vs a 0x110000-bit bitset model; install_unicode_data histories with simulated download faults and exhaustive table comparison with unicodedata',
+     'text': 'Histories of set operations (aimed at the overlap geometries of the current representation, with operands that are other pool members, the object itself or the shared global table objects) are compared bit for bit with a big-integer model; canonical form, extensional equality, operand immutability and absence of aliasing into the global tables are checked after every step. A second arm installs Unicode data versions (also from a simulated URL with failing and torn downloads) and checks the tables exhaustively against unicodedata, structural invariants for every version, failed-install atomicity and cache invalidation.',
+     'note': 'Category model is the running interpreter\'s unicodedata; versions other than the interpreter\'s are checked structurally only.'},
 ]
 
 NOT_APPLICABLE = [
